@@ -22,6 +22,7 @@ def generate(rng, idx, tier, variant):
         pokes = [op for op in sched['ops'] if op['op'] == 'poke']
     else:
         spec = S.gen_spec(rng, 'solver_faults', tier)
+        spec.pop('mixins', None)
         pokes = []
     n, lags, leads = spec['span']['n'], spec['lags'], spec['leads']
     if idx % 97 == 0:
